@@ -346,8 +346,26 @@ def date_variant(src, b):
     t = b["date"]
     y, m, d = t.rsplit("-", 2)
     y, m, d = int(y), int(m), int(d)
-    how = src.weighted([(3, "day"), (2, "month"), (2, "year"), (2, "same")])
-    if how == "day":
+    how = src.weighted([(3, "day"), (2, "month"), (2, "year"), (2, "same"), (3, "next-day"), (2, "prev-day")])
+    if how in ("next-day", "prev-day"):
+        # the calendar neighbour, across the end of the month / year (31st -> 1st)
+        leap = y % 4 == 0 and (y % 100 != 0 or y % 400 == 0)
+        ml = lambda mm: 29 if (mm == 2 and leap) else MDAYS[mm - 1]
+        if how == "next-day":
+            d += 1
+            if d > ml(m):
+                d, m = 1, m + 1
+                if m > 12:
+                    m, y = 1, (y + 1 if y + 1 != 0 and abs(y + 1) <= 999999999 else y)
+        else:
+            d -= 1
+            if d < 1:
+                m -= 1
+                if m < 1:
+                    m, y = 12, (y - 1 if y - 1 != 0 and abs(y - 1) <= 999999999 else y)
+                leap = y % 4 == 0 and (y % 100 != 0 or y % 400 == 0)
+                d = ml(m)
+    elif how == "day":
         d = d + 1 if d < 28 else d - 1
     elif how == "month":
         m = m + 1 if m < 12 else 11
